@@ -97,16 +97,16 @@ structure Entered (c : Cfg) (h : Host) (s : Sys) (id : Nat) (orc : List Bool) (s
 theorem evalPr_reaches {c : Cfg} {h : Host} {s : Sys} {id : Nat} {orc : List Bool} {sel : List Nat}
     {p : Pr} {st : State} {src : BertE.Names.Parsed} {dst : Dest} {sc dc : Commit} {l4 : Loc} {pushW : List Op}
     (hat : AtClone c h s id p st src dst) (hopen : (p.status == "DECLINED") = false)
-    (hpj : PastJira c h s p ⟨p.id, p.src, dst⟩ src st sc dc) (hnq : alreadyQueued s ⟨p.id, p.src, dst⟩ = false)
-    (hhm : p.facts.historyMismatch = false) (hprep : prepare s ⟨p.id, p.src, dst⟩ sc dc orc = .inr (l4, pushW)) :
-    Reaches c h s id orc sel p st src ⟨p.id, p.src, dst⟩ sc dc l4 pushW := by
-  have heq : evalPr c h s id orc sel = afterClone c h s p ⟨p.id, p.src, dst⟩ src st (greetingOf c h s p) orc sel := by
+    (hpj : PastJira c h s p ⟨p.id, p.src, dst, opt st "no_octopus"⟩ src st sc dc) (hnq : alreadyQueued s ⟨p.id, p.src, dst, opt st "no_octopus"⟩ = false)
+    (hhm : p.facts.historyMismatch = false) (hprep : prepare s ⟨p.id, p.src, dst, opt st "no_octopus"⟩ sc dc orc = .inr (l4, pushW)) :
+    Reaches c h s id orc sel p st src ⟨p.id, p.src, dst, opt st "no_octopus"⟩ sc dc l4 pushW := by
+  have heq : evalPr c h s id orc sel = afterClone c h s p ⟨p.id, p.src, dst, opt st "no_octopus"⟩ src st (greetingOf c h s p) orc sel := by
     unfold evalPr
     rw [hat.found]
     simp only [hat.proceed, hat.srcName, hat.dstName, hopen, Bool.false_eq_true, if_false]
     rfl
-  have hg : afterClone c h s p ⟨p.id, p.src, dst⟩ src st (greetingOf c h s p) orc sel =
-      gates c h s p ⟨p.id, p.src, dst⟩ st (greetingOf c h s p) sc l4 pushW := by
+  have hg : afterClone c h s p ⟨p.id, p.src, dst, opt st "no_octopus"⟩ src st (greetingOf c h s p) orc sel =
+      gates c h s p ⟨p.id, p.src, dst, opt st "no_octopus"⟩ st (greetingOf c h s p) sc l4 pushW := by
     unfold afterClone
     simp only [hpj.srcTip, hpj.dstTip, hpj.notMerged, hpj.recent, hpj.cascade, hpj.compat, hpj.jira, hpj.branches,
       hnq, hhm, hprep, Bool.false_eq_true, if_false, Bool.not_true]
@@ -123,14 +123,14 @@ theorem evalPr_reaches {c : Cfg} {h : Host} {s : Sys} {id : Nat} {orc : List Boo
 theorem evalPr_late {c : Cfg} {h : Host} {s : Sys} {id : Nat} {orc : List Bool} {sel : List Nat}
     (hd : (evalPr c h s id orc sel).declined = false) (hst : (evalPr c h s id orc sel).stage ≠ .early) :
     ∃ p st src dst sc dc, AtClone c h s id p st src dst ∧ (p.status == "DECLINED") = false ∧
-      (evalPr c h s id orc sel).pr = ⟨p.id, p.src, dst⟩ ∧
-      evalPr c h s id orc sel = afterClone c h s p ⟨p.id, p.src, dst⟩ src st (greetingOf c h s p) orc sel ∧
-      PastJira c h s p ⟨p.id, p.src, dst⟩ src st sc dc := by
+      (evalPr c h s id orc sel).pr = ⟨p.id, p.src, dst, opt st "no_octopus"⟩ ∧
+      evalPr c h s id orc sel = afterClone c h s p ⟨p.id, p.src, dst, opt st "no_octopus"⟩ src st (greetingOf c h s p) orc sel ∧
+      PastJira c h s p ⟨p.id, p.src, dst, opt st "no_octopus"⟩ src st sc dc := by
   rcases evalPr_cases c h s id orc sel with ⟨_, he, _⟩ | ⟨p, st, src, dst, _, _, hdec, _⟩ |
     ⟨p, st, src, dst, hat, hopen, heq⟩
   · exact absurd he hst
   · rw [hdec] at hd; cases hd
-  · rcases afterClone_inv c h s p ⟨p.id, p.src, dst⟩ src st (greetingOf c h s p) orc sel with ⟨he, _⟩ |
+  · rcases afterClone_inv c h s p ⟨p.id, p.src, dst, opt st "no_octopus"⟩ src st (greetingOf c h s p) orc sel with ⟨he, _⟩ |
       ⟨sc, dc, hpj, _⟩
     · rw [heq] at hst; exact absurd he hst
     · exact ⟨p, st, src, dst, sc, dc, hat, hopen, by rw [heq]; exact (afterClone_pr ..).1, heq, hpj⟩
@@ -144,7 +144,7 @@ theorem evalPr_entered {c : Cfg} {h : Host} {s : Sys} {id : Nat} {orc : List Boo
     ∃ p st src pr sc dc l4 pushW, Entered c h s id orc sel p st src pr sc dc l4 pushW := by
   obtain ⟨p, st, src, dst, sc, dc, hat, _, hpr, heq, hpj⟩ := evalPr_late hd (by rw [hf]; simp)
   rw [hpr] at hnq
-  rcases afterClone_inv c h s p ⟨p.id, p.src, dst⟩ src st (greetingOf c h s p) orc sel with ⟨he, _⟩ |
+  rcases afterClone_inv c h s p ⟨p.id, p.src, dst, opt st "no_octopus"⟩ src st (greetingOf c h s p) orc sel with ⟨he, _⟩ |
     ⟨sc', dc', hpj', hcase⟩
   · rw [heq, he] at hf; cases hf
   · have hsc : sc' = sc := by have := hpj'.srcTip; rw [hpj.srcTip] at this; cases this; rfl
@@ -153,10 +153,10 @@ theorem evalPr_entered {c : Cfg} {h : Host} {s : Sys} {id : Nat} {orc : List Boo
     rcases hcase with ⟨haq, _⟩ | ⟨_, _, ⟨pl, _, hi, _⟩ | ⟨l4, pushW, hprep, hg⟩⟩
     · rw [hnq] at haq; cases haq
     · rw [heq, hi] at hf; cases hf
-    · have hf' : (gates c h s p ⟨p.id, p.src, dst⟩ st (greetingOf c h s p) sc' l4 pushW).stage = .final := by
+    · have hf' : (gates c h s p ⟨p.id, p.src, dst, opt st "no_octopus"⟩ st (greetingOf c h s p) sc' l4 pushW).stage = .final := by
         rw [← hg, ← heq]; exact hf
       obtain ⟨hsk, ha, hb⟩ := (gates_final_iff ..).mp hf'
-      refine ⟨p, st, src, ⟨p.id, p.src, dst⟩, sc', dc', l4, pushW, ?_⟩
+      refine ⟨p, st, src, ⟨p.id, p.src, dst, opt st "no_octopus"⟩, sc', dc', l4, pushW, ?_⟩
       exact { found := hat.found
               options := evalG_proceed_comments hat.proceed
               srcName := hat.srcName
@@ -193,7 +193,7 @@ theorem evalG_updateW_done (pr : PrInfo) : ∀ (ds : List Dest) (l : Loc) (prev 
     | none => exact hd
     | some t =>
       simp only
-      cases l.merge (.w d pr.src) [t, prev] with
+      cases l.mergeN pr.noOct (.w d pr.src) t prev with
       | none => exact hd
       | some l' =>
         simp only
@@ -264,14 +264,14 @@ theorem evalPr_stops_at_w {c : Cfg} {h : Host} {s : Sys} {id : Nat} {orc : List 
     intro op hop; cases hop
   · obtain ⟨p, st, src, dst, sc, dc, _, _, hpr, heq, hpj⟩ := evalPr_late hd he
     rw [hpr]
-    rcases afterClone_inv c h s p ⟨p.id, p.src, dst⟩ src st (greetingOf c h s p) orc sel with ⟨he', _⟩ |
+    rcases afterClone_inv c h s p ⟨p.id, p.src, dst, opt st "no_octopus"⟩ src st (greetingOf c h s p) orc sel with ⟨he', _⟩ |
       ⟨sc', dc', hpj', hcase⟩
     · rw [heq] at he; exact absurd he' he
     · rcases hcase with ⟨_, hfin, _⟩ | ⟨_, _, ⟨pl, hprep, _, hpl⟩ | ⟨l4, pushW, hprep, hg⟩⟩
       · rw [heq] at hnf; exact absurd hfin hnf
       · rw [heq, hpl]
         exact (evalG_prepare_onlyW s _ sc' dc' orc).1 pl hprep
-      · have hnf' : (gates c h s p ⟨p.id, p.src, dst⟩ st (greetingOf c h s p) sc' l4 pushW).stage ≠ .final := by
+      · have hnf' : (gates c h s p ⟨p.id, p.src, dst, opt st "no_octopus"⟩ st (greetingOf c h s p) sc' l4 pushW).stage ≠ .final := by
           rw [← hg, ← heq]; exact hnf
         rw [heq, hg, (gates_not_final _ _ _ _ _ _ _ _ _ _ hnf').2]
         exact (evalG_prepare_onlyW s _ sc' dc' orc).2 l4 pushW hprep
